@@ -550,7 +550,8 @@ def W3():
     add(w, "sv_c", "Server", storage=link("st_c"), server_type=["c", "serverless"])
     add(w, "j1", "Job", server=link("sv"), request_duration=Q(30, "minute"))
     add(w, "j2", "Job", server=link("sv"), data_stored=Q(-20, "kilobyte"), data_transferred=Q(0.3, "megabyte"))
-    add(w, "j3", "Job", server=link("sv_b"), data_stored=Q(33.3, "kilobyte"), request_duration=Q(30, "minute"))
+    # exactly one hour: sits on the round-up-to-full-hours boundary (unit re-expressions must not cross it)
+    add(w, "j3", "Job", server=link("sv_b"), data_stored=Q(33.3, "kilobyte"), request_duration=Q(1, "hour"))
     add(w, "j4", "Job", server=link("sv_c"))
     add(w, "j_idle", "Job", server=link("sv_b"), ram_needed=Q(70, "megabyte"))   # attached to a used server, used by no step
     add(w, "s1", "UsageJourneyStep", user_time_spent=Q(20, "minute"), jobs=lst("j1", "j2"))
